@@ -66,7 +66,7 @@ class CidModel(object):
             if c["type"] == "IsUnique":
                 rows.append(["C", c["desc"], "IsUnique", ", ".join(c["fields"])])
             else:
-                rows.append(["C", c["desc"], "DistinctCount", "%s %s %d" % (c["field"], c["op"], c["n"])])
+                rows.append(["C", c["desc"], "DistinctCount", distinct_rule(c)])
         return rows
 
     def to_json(self):
@@ -88,6 +88,25 @@ class CidModel(object):
         return model
 
 
+def distinct_rule(c):
+    """The rule text of a DistinctCount check: 'field op n', or several such comparisons joined by and / or (where
+    every mention of the field stands for the number of distinct values)."""
+    first = "%s %s %d" % (c["field"], c["op"], c["n"])
+    for joiner, op, n in c.get("more", ()):
+        first += " %s %s %s %d" % (joiner, c["field"], op, n)
+    return first
+
+
+def distinct_holds(c, count):
+    """Python's own reading of the joined comparisons: 'and' binds tighter than 'or'."""
+    groups = [[OPS[c["op"]](count, c["n"])]]
+    for joiner, op, n in c.get("more", ()):
+        if joiner == "or":
+            groups.append([])
+        groups[-1].append(OPS[op](count, n))
+    return any(all(g) for g in groups)
+
+
 class CheckState(object):
     def __init__(self, model):
         self.model = model
@@ -104,7 +123,7 @@ class CheckState(object):
         """Index of the first failing DistinctCount check (declaration order) or None."""
         for i, c in enumerate(self.model.checks):
             if c["type"] == "DistinctCount":
-                if not OPS[c["op"]](len(self.distinct[i]), c["n"]):
+                if not distinct_holds(c, len(self.distinct[i])):
                     return i
         return None
 
